@@ -1064,7 +1064,7 @@ def shrink_config(case):
 MATCHERS = {}
 
 TIERS = {
-    "quick": {"runs": 10000, "chunk": 100, "budget_s": 70},
+    "quick": {"runs": 8000, "chunk": 100, "budget_s": 70},
     "thorough": {"runs": 250000, "chunk": 250, "budget_s": 1500},
 }
 PROBES = [
